@@ -765,3 +765,184 @@ pub fn gen_term(prop: &'static str, rng: &mut Rng, run: u64, thorough: bool) -> 
     t.events.push(Ev::Poll);
     t
 }
+
+// ---------------------------------------------------------------- C03
+
+/// Step bound for an input of n bytes on a w x h screen (DESIGN.md §3 C03).
+pub fn c03_bound(n: u64, w: u64, h: u64) -> u64 {
+    // each byte may scroll or fill the screen plus the scrollback it created; one control function may
+    // scroll a full screen height of times; constants leave >= 4x head-room over the worst legitimate
+    // case measured on the repaired tree (CSI 60 S on 132x60: 475 201 ticks)
+    16 * (n + 1) * w * (h + n + 1) + 4 * w * h * h + 500_000
+}
+
+fn mag(rng: &mut Rng, size: i64) -> String {
+    match rng.below(8) {
+        0 => String::new(),
+        1 => "0".into(),
+        2 => "1".into(),
+        3 => size.to_string(),
+        4 => "65536".into(),
+        5 => "1000000".into(),
+        _ => "2147483647".into(),
+    }
+}
+
+/// One control function (or file-like payload) with extreme magnitudes, after a short set-up.
+pub fn gen_c03(rng: &mut Rng, _run: u64, _thorough: bool) -> Trace {
+    let mut t = Trace::new("C03", "term");
+    let emu: &'static str = match rng.below(10) {
+        0 => "avatar",
+        1 => *rng.pick(&["pcboard", "ctrla", "renegade", "petscii", "atascii", "viewdata", "mode7"]),
+        _ => "ansi",
+    };
+    let (w, h) = pick_size(rng, emu);
+    t.cfg.emu = emu.into();
+    t.cfg.music = (*rng.pick(&MUSIC)).into();
+    t.cfg.w = w;
+    t.cfg.h = h;
+    t.cfg.clock_ms = 1_700_000_000_000;
+    let mut bytes: Vec<u8> = Vec::new();
+    // set-up: a little state for the target to meet
+    for _ in 0..rng.usize(3) {
+        match rng.below(6) {
+            0 => bytes.extend(b"AB"),
+            1 => bytes.extend(vec![b'\n'; 1 + rng.usize(h as usize + 1)]),
+            2 => bytes.extend(format!("\x1b[{};{}r", 1 + rng.below(3), 2 + rng.below(h as u64)).into_bytes()),
+            3 => bytes.extend(b"\x1b[?69h\x1b[2;5s"),
+            4 => bytes.extend(b"\x1b[4h"),
+            _ => bytes.extend(format!("\x1b[{};{}H", 1 + rng.below(h as u64), 1 + rng.below(w as u64)).into_bytes()),
+        }
+    }
+    let target: String;
+    if emu != "ansi" && rng.chance(1, 2) {
+        match emu {
+            "avatar" => {
+                match rng.below(3) {
+                    0 => {
+                        bytes.extend([0x19, b'x', 0xff]);
+                        target = "avatar:rep".into();
+                    }
+                    1 => {
+                        bytes.extend([0x16, 8, 0xff, 0xff]);
+                        target = "avatar:goto".into();
+                    }
+                    _ => {
+                        bytes.extend([0x19, 0x19, 0xff, 0xff, 0xff]);
+                        target = "avatar:rep_rep".into();
+                    }
+                }
+            }
+            _ => {
+                let n = 1 + rng.usize(24);
+                for _ in 0..n {
+                    bytes.push(rng.byte());
+                }
+                target = format!("{emu}:bytes");
+            }
+        }
+    } else {
+        let size = if rng.chance(1, 2) { w } else { h } as i64;
+        match rng.below(14) {
+            0..=5 => {
+                let f = (0x40 + rng.below(0x3f) as u8) as char;
+                let pr = *rng.pick(&["", "", "", "?", "=", "!", "<"]);
+                let im = *rng.pick(&["", "", "", " ", "$", "*"]);
+                let n = rng.usize(7);
+                let mut s = format!("\x1b[{pr}");
+                for i in 0..n {
+                    if i > 0 {
+                        s.push(';');
+                    }
+                    s.push_str(&mag(rng, size));
+                }
+                s.push_str(im);
+                s.push(f);
+                bytes.extend(s.into_bytes());
+                target = format!("csi:{pr}{im}{f}");
+            }
+            6 => {
+                // self- and mutually-recursive macros
+                match rng.below(3) {
+                    0 => bytes.extend(b"\x1bP1;0;0!z\x1b[1*z\x1b\\\x1b[1*z"),
+                    1 => bytes.extend(b"\x1bP1;0;0!z\x1b[2*z\x1b\\\x1bP2;0;0!z\x1b[1*z\x1b\\\x1b[1*z"),
+                    _ => bytes.extend(b"\x1bP1;0;0!zA\x1b[1*z\x1b[1*z\x1b\\\x1b[1*z"),
+                }
+                target = "macro:recursive".into();
+            }
+            7 => {
+                // macros that invoke macros: multiplicative expansion without recursion
+                let levels = 2 + rng.usize(3);
+                bytes.extend(b"\x1bP0;0;0!zAAAAAAAA\x1b\\");
+                for l in 1..=levels {
+                    bytes.extend(format!("\x1bP{l};0;0!z").into_bytes());
+                    for _ in 0..4 {
+                        bytes.extend(format!("\x1b[{}*z", l - 1).into_bytes());
+                    }
+                    bytes.extend(b"\x1b\\");
+                }
+                bytes.extend(format!("\x1b[{levels}*z").into_bytes());
+                target = "macro:chain".into();
+            }
+            8 => {
+                let rep = mag(rng, size);
+                bytes.extend(format!("\x1bP1;0;1!z!{rep};4142;\x1b\\\x1b[1*z").into_bytes());
+                target = "dcs:hexrepeat".into();
+            }
+            9 => {
+                let a = mag(rng, size);
+                let b = mag(rng, size);
+                bytes.extend(format!("\x1bPq\"1;1;{a};{b}~\x1b\\").into_bytes());
+                target = "sixel:raster".into();
+            }
+            10 => {
+                let a = mag(rng, size);
+                bytes.extend(format!("\x1bPq!{a}~-!{}~\x1b\\", mag(rng, size)).into_bytes());
+                target = "sixel:repeat".into();
+            }
+            11 => {
+                let a = mag(rng, size);
+                bytes.extend(format!("\x1bPq#{a};2;1;1;1~#{a}~\x1b\\").into_bytes());
+                target = "sixel:color".into();
+            }
+            12 => {
+                let hdr: Vec<u8> = if rng.chance(1, 2) {
+                    vec![0x36, 0x04, rng.below(4) as u8, *rng.pick(&[0u8, 1, 32, 255])]
+                } else {
+                    let mut hd = vec![0x72, 0xb5, 0x4a, 0x86];
+                    for f in [0u32, 32, 0, 256, 16, 16, 8] {
+                        let v = if rng.chance(1, 3) { *rng.pick(&[0u32, 1, 32, 255, 65_536, 0x7fff_ffff, 0xffff_ffff]) } else { f };
+                        hd.extend_from_slice(&v.to_le_bytes());
+                    }
+                    hd
+                };
+                let mut d = hdr;
+                let n = *rng.pick(&[0usize, 1, 16, 64, 4096]);
+                d.extend(vec![0xAA; n]);
+                bytes.extend(format!("\x1bPCTerm:Font:{}:", mag(rng, 3)).into_bytes());
+                bytes.extend(base64_lite::encode(&d).into_bytes());
+                bytes.extend(b"\x1b\\");
+                target = "font:dcs".into();
+            }
+            _ => {
+                let idx = mag(rng, size);
+                match rng.below(3) {
+                    0 => bytes.extend(format!("\x1b]4;{idx};rgb:00/00/00\x1b\\").into_bytes()),
+                    1 => bytes.extend(format!("\x1b[38;5;{idx}m\x1b[48;2;{idx};{idx};{idx}mA").into_bytes()),
+                    _ => bytes.extend(format!("\x1b[{idx};{idx} D").into_bytes()),
+                }
+                target = "colour:index".into();
+            }
+        }
+    }
+    let n = bytes.len() as u64;
+    let bound = c03_bound(n, w as u64, h as u64);
+    t.cfg.fuel = bound;
+    t.cfg.decode_fuel = bound;
+    t.labels.push(format!("target={target}"));
+    t.labels.push(format!("emu={emu}"));
+    t.rx(&bytes);
+    t.events.push(Ev::Release { ticket: 0 });
+    t.events.push(Ev::Poll);
+    t
+}
